@@ -25,15 +25,15 @@ func c05WaitCond() {
 	nw := simrt.DrawRange(1, 3)
 	incs := simrt.DrawRange(0, 3)
 	type waiter struct {
-		target    int
-		ctx       context.Context
-		cancel    context.CancelFunc
-		cancelled bool // cancel invoked (set before the call)
-		willCancel bool
-		returned  bool
-		err       error
-		lastPred  bool
-		predCalls int
+		target       int
+		ctx          context.Context
+		cancel       context.CancelFunc
+		cancelled    bool // cancel invoked (set before the call)
+		willCancel   bool
+		returned     bool
+		err          error
+		lastPred     bool
+		predCalls    int
 		unlockedPred bool
 	}
 	ws := make([]*waiter, nw)
@@ -172,13 +172,13 @@ func c05Get() {
 	nPuts := simrt.DrawRange(0, 5)
 	closeBuf := simrt.Chance(1, 4)
 	type get struct {
-		ctx       context.Context
-		cancel    context.CancelFunc
-		cancelled bool
-		started   bool
-		returned  bool
+		ctx        context.Context
+		cancel     context.CancelFunc
+		cancelled  bool
+		started    bool
+		returned   bool
 		willCancel bool
-		delay     int
+		delay      int
 	}
 	gets := make([]*get, nGets)
 	for i := range gets {
@@ -186,8 +186,8 @@ func c05Get() {
 		g.ctx, g.cancel = context.WithCancel(context.Background())
 		gets[i] = g
 	}
-	puts := 0      // completed Puts
-	pos := 0       // consumer read position (successful Gets)
+	puts := 0        // completed Puts
+	pos := 0         // consumer read position (successful Gets)
 	closing := false // Buffer.Close invoked
 	consumerDone := false
 	cur := -1
